@@ -26,7 +26,9 @@ Lemma start_face_shape : forall nf s a s', NC = 3 * nf -> W NC maxv (nfaces s) s
   exists b c, 0 <= b < 3 * f /\ 0 <= c < 3 * f /\ copp s a = -1 /\ copp s b = -1 /\ copp s c = -1 /\
     copp s' = upd (upd (upd (upd (upd (upd (copp s) (3 * f) a) a (3 * f)) (3 * f + 1) b) b (3 * f + 1)) (3 * f + 2) c) c (3 * f + 2) /\
     c2v s' = upd (upd (upd (c2v s) (3 * f) (c2v s (next_c b))) (3 * f + 1) (c2v s (next_c c))) (3 * f + 2) (c2v s (next_c a)) /\
-    vc s' = vc s /\ nv s' = nv s /\ invalid s' = invalid s.
+    vc s' = vc s /\ nv s' = nv s /\ invalid s' = invalid s /\
+    c2v s (prev_c a) = c2v s (next_c c) /\                (* the guard Vertex(Previous(corner_a)) == vert_p *)
+    b = next_c (vc s (c2v s (next_c a))) /\ c = next_c (vc s (c2v s (next_c b))) /\ a <> b /\ a <> c /\ b <> c.
 Proof.
   intros nf s a s' HNC HW HN Ha H. cbv zeta.
   unfold start_face in H. set (f := nfaces s) in *.
@@ -47,6 +49,9 @@ Proof.
   match goal with Q : all_free _ _ _ = Ok true |- _ => apply all_free_cons in Q; destruct Q as (Fa & Q); apply all_free_cons in Q; destruct Q as (Fb & Q); apply all_free_cons in Q; destruct Q as (Fc & _) end.
   destruct Fa as [Fa|(_ & Fa)]; [lia|]. destruct Fb as [Fb|(_ & Fb)]; [lia|]. destruct Fc as [Fc|(_ & Fc)]; [lia|].
   mstep H. mstep H. vtx_created. subst.
+  pose proof (prev_c_rng a f Ha) as Hpa.
+  mstep H. vtx_created. subst. mstep H.
+  match goal with Q : negb (_ =? _) = false |- _ => rename Q into Eguard end.
   mstep H. mstep H. mstep H. prim. subst. sproj.
   mstep H. mstep H. mstep H. prim. subst. sproj.
   mstep H. vtx_created. mstep H. prim. subst. sproj.
